@@ -20,27 +20,36 @@ CLEFS = ['*clefG2', '*clefF4', '*clefC3', '*clefC4', '*clefC1', '*clefC2', '*cle
          '*clefGvv2', '*clefFv4', '*clefG^^2', '*clefG2', '*clefF4']
 KEYSIGS = ['*k[]', '*k[f#]', '*k[f#c#]', '*k[b-]', '*k[b-e-a-]', '*k[f#c#g#d#]', '*k[b-e-]', '*kcancel', '*k[f#]X',
            '*k[f#c#g#d#a#e#b#]', '*k[b-e-a-d-g-c-f-]']
-METERS = ['*M4/4', '*M3/4', '*M6/8', '*M2/2', '*M12/8', '*M3+2/8', '*M2/4', '*M5/4', '*M3+2+2/8', '*M4/2']
+METERS = ['*M4/4', '*M3/4', '*M6/8', '*M2/2', '*M12/8', '*M3+2/8', '*M2/4', '*M5/4', '*M3+2+2/8', '*M4/2',
+          '*M12/16', '*M9/16', '*M2/1', '*M11/8', '*M10/4', '*M24/16']
 METERSYMS = ['*met(c)', '*met(c|)', '*met(O)', '*met(C|)', '*met(O.)', '*met(C3/2)', '*M(c)', '*M(c|)', '*M(C|)', '*M(O)']
 TANDEMS = ['*MM120', '*MM60', '*tb8', '*staff1', '*staff2', '*staff1/2', '*I"Piano', '*Ivioln', '*>A', '*>[A,B,A]',
            '*>norep[A,B]', '*>1st ending', '*ped', '*Xped', '*8va', '*X8va', '*8ba', '*lh', '*rh', '*cue', '*Xcue',
            '*C:', '*a:', '*F#:', '*b-:', '*C:dor', '*Trd1c2', '*ITrd-1c-2', '*part1', '*group2', '*rscale:1/2',
            '*rscale:2', '*xywh-1:10,20,30,40', '*above', '*below', '*below:2', '*centered', '*tuplet', '*Xtuplet',
            '*tremolo', '*Xtremolo', '*tstart', '*tend', '*solo', '*accomp', '*strophe', '*S/sic', '*S/ossia',
-           '*S/fin', '*S-', '*ela', '*mI"Title', '*MM120.5', '*?:', '*C/a:', '*I"Flauto 1']
+           '*S/fin', '*S-', '*ela', '*mI"Title', '*MM120.5', '*?:', '*C/a:', '*I"Flauto 1',
+           # numbers at the edges: zero, several digits, leading zeros, fractions (all kept as written)
+           '*staff10', '*staff007', '*staff0', '*MM0', '*MM1000.25', '*tb128', '*tb0', '*part10', '*group12', '*rscale:3/2',
+           '*rscale:10', '*Trd10c12', '*xywh-0:0,0,0,0', '*xywh-99999:1,2,3,99999999', '*staff+3', '*staff12/13']
 BAR_TYPES = ['', '', '', '', '||', '|!', '|!:', '|:', '!|:', ':|!', ':|!|:', ':||:', ':!:', ':!!:', '=']
 
 WORDS = ['la', 'Ky-', '-ri-', 'e', '_', 'A-', 'men', 'do', 're', 'mi', 'Gott', 'lieb', 'f', 'p', 'mf', 'ff', 'cresc',
          '<', '>', '(', ')', '[', ']', 'C', 'Am', 'G7', 'I', 'V7', 'iv', 'viio', '1', '2', '3', '4 5', 'n', 'x', '1-2',
          'sol', 'al-', 'le-', 'lu-', 'ia', 'pp', 'sfz', 'dim', 'IV', 'ii6', 'T', 'ped', 'a', 'c', 'cc', '4c', 'r',
-         'rit.', 'rit', 'rall.', 'rinf.', 'ring', 'river', 'res-', 'ri-', '-re', 'rf', 'poco', 'più', 'ten.', 'stacc.', 'xywh']
+         'rit.', 'rit', 'rall.', 'rinf.', 'ring', 'river', 'res-', 'ri-', '-re', 'rf', 'poco', 'più', 'ten.', 'stacc.', 'xywh',
+         # words spelled only with the characters of the null tokens: they are words (a line that holds one is not an empty line)
+         '...', '..', '…']
 HOSTILE_WORDS = ['"quoted"', "it's", 'a,b', 'two words', 'naïve', 'señor', 'größe', '日本', 'a"b', '""', '"', 'c\\d',
                  "''", 'x;y', ' lead', 'trail ', 'q"', '"open', 'close"', 'a""b', ',', "'", '\\', 'ñ', 'é', '€uro',
                  'tab?', 'a  b', '"a"b"', 'Ωmega', 'x|y', '4c|', '#', '-', '--', '~', '{x}', '"a b" c',
                  # decomposed accents and singleton code points: text is kept code point for code point, never normalised
                  'cafe\u0301', 'man\u0303ana', '\u212bngstro\u0308m', '\u2126', 'fac\u0327ade', '\ufb01n',
                  # characters that str.splitlines() treats as line boundaries but that are not Humdrum record separators
-                 'la\u2028li', 'a\x0cb', 'x\x85y', 'p\u2029q', 'v\x0bt', 'f\x1cs', '\x1e', 'nb\xa0sp']
+                 'la\u2028li', 'a\x0cb', 'x\x85y', 'p\u2029q', 'v\x0bt', 'f\x1cs', '\x1e', 'nb\xa0sp',
+                 # an invisible character in front of a word or of something that looks like an operator: part of the cell, in every
+                 # column and on every line (a byte-order mark belongs to the file, not to a cell)
+                 '\ufeffla', '\ufeff*^', '\u200b*-', '\ufeff', '\ufeff=1', '\u2060*v', '\ufeff.']
 SEPARATOR_WORDS = ['col·le', 'me@example.org', '@', '·', 'a@b·c']
 # characters str.splitlines() breaks at, inside a word (never a Humdrum record separator)
 BOUNDARY_WORDS = ['la\u2028li', 'a\x0cb', 'x\x85y', 'p\u2029q', 'v\x0bt', 'f\x1cs', 'g\x1dh', 'k\x1el']
@@ -83,6 +92,7 @@ class Profile:
     p_split: float = 0.12
     p_join: float = 0.5                  # per row while split
     p_early_term: float = 0.02
+    p_spine_end: float = 0.0             # per operator opportunity: a whole spine (not a sub-spine) ends with *- while the others go on
     p_combo_ops: float = 0.15
     p_consecutive_ops: float = 0.35
     p_null_run: float = 0.04
@@ -111,6 +121,7 @@ class Profile:
     final_barline: str = 'random'
     p_pickup: float = 0.2
     bar_numbers: float = 0.6
+    p_odd_numbering: float = 0.3         # measure numbers that do not count 1, 2, 3 ...: an offset, leading zeros, repeats, any order
     p_hidden_bar: float = 0.0            # invisible barlines (=-, =1-): only the measure-structure checks turn this on
     hostile: float = 0.5
     hostile_text: float = 0.25
@@ -182,6 +193,8 @@ class _Gen:
         self.paths = []       # list of spine idx per live column
         self.types = []       # header type per spine idx
         self.measure_no = 0
+        self.numbering = None
+        self.number_offset = 0
         self.open_splits = 0
         self.colsig = []      # per live column: dict kind -> text (what the generator wrote last on that path)
 
@@ -325,11 +338,35 @@ class _Gen:
                 self.doc.tags.add('nonuniform_signatures')
         self.add(Line('interp', cells))
 
+    def written_number(self):
+        """The number written on a barline.  It is a label: measures are counted by their barlines, whatever is written on them (the
+        property says the number is the one thing a barline loses on export), so the label may start anywhere, repeat, go backwards,
+        carry leading zeros or have twenty digits."""
+        rng = self.rng
+        if self.numbering is None:
+            self.numbering = 'plain' if rng.random() >= self.p.p_odd_numbering else \
+                rng.choice(['offset', 'offset', 'zeros', 'random', 'constant', 'huge'])
+            self.number_offset = rng.choice([-1, 8, 9, 97, 98, 99, 997, 9998])
+            if self.numbering != 'plain':
+                self.doc.tags.add('odd_measure_numbering')
+        k = self.measure_no
+        if self.numbering == 'offset':
+            return str(k + self.number_offset)
+        if self.numbering == 'zeros':
+            return '0' * rng.choice([1, 2, 2]) + str(k)
+        if self.numbering == 'random':
+            return str(rng.choice([0, 1, 2, 3, 10, 11, 100, k, k + 1, max(0, k - 1)]))
+        if self.numbering == 'constant':
+            return str(self.number_offset + 1)
+        if self.numbering == 'huge':
+            return str(10 ** 19 + k)
+        return str(k)
+
     def bar_line(self, double=False):
         rng, p = self.rng, self.p
         self.measure_no += 1
         eq = '==' if double else '='
-        num = str(self.measure_no) if (rng.random() < p.bar_numbers and not double) else ''
+        num = self.written_number() if (rng.random() < p.bar_numbers and not double) else ''
         typ = rng.choice(BAR_TYPES) if rng.random() < 0.5 else ''
         ferm = ';' if rng.random() < 0.07 else ''
         hidden = (not double) and p.p_hidden_bar > 0 and rng.random() < p.p_hidden_bar
@@ -339,7 +376,7 @@ class _Gen:
         for c in range(len(self.paths)):
             t, n_, f = typ, num, ferm
             if p.bar_variants and rng.random() < 0.08:
-                n_ = '' if n_ else str(self.measure_no)
+                n_ = '' if n_ else self.written_number()
             # the whole row is invisible or none of it is; kernpy replaces an invisible barline by a null on export
             cells.append(Cell('bar', f'{eq}{n_}{"-" if hidden else ""}{t}{f}',
                               obj={'eq': eq, 'num': n_, 'type': t, 'fermata': f, 'hidden': hidden}))
@@ -432,6 +469,14 @@ class _Gen:
                 if survivors >= 1:
                     ops[c] = '*-'
                     self.doc.tags.add('early_terminator')
+        if len(self.paths) > 1 and p.p_spine_end and rng.random() < p.p_spine_end:
+            cols = [c for c in range(len(self.paths)) if c not in ops and self.paths.count(self.paths[c]) == 1]
+            alive = {self.paths[c] for c in range(len(self.paths))}
+            if cols and len(alive) > 1:
+                c = cols[0] if rng.random() < 0.5 else rng.choice(cols)      # the first column as often as all others together
+                ops[c] = '*-'
+                self.doc.tags.add('early_terminator')
+                self.doc.tags.add('spine_ended_early')
         if ops:
             self.op_line(ops)
             did = True
